@@ -278,9 +278,9 @@ struct NormalGravityRef {
   }
   Q Phi(Q X, Q Y) const { return omega * omega * (X * X + Y * Y) / 2; }
   Q U(Q X, Q Y, Q Z) const { return V0(X, Y, Z) + Phi(X, Y); }
-  // gradient by central differences in float128 with Richardson extrapolation: error ~ (h/r)^4 + 1e-34 r/h
+  // gradient by central differences in float128 with Richardson extrapolation (h = 1e-8 r): error ~ (n h/r)^4 + 1e-34 r/h ~ 1e-26
   template <class F> static void gradient(F fn, Q X, Q Y, Q Z, Q& gx, Q& gy, Q& gz) {
-    Q r = sqrtq(X * X + Y * Y + Z * Z), h = r * (Q)1e-6;
+    Q r = sqrtq(X * X + Y * Y + Z * Z), h = r * (Q)1e-8;
     auto d = [&](int ax, Q hh) { Q p[3] = {X, Y, Z}, m[3] = {X, Y, Z}; p[ax] += hh; m[ax] -= hh;
       return (fn(p[0], p[1], p[2]) - fn(m[0], m[1], m[2])) / (2 * hh); };
     Q o[3]; for (int ax = 0; ax < 3; ++ax) { Q d1 = d(ax, h), d2 = d(ax, 2 * h); o[ax] = (4 * d1 - d2) / 3; }
